@@ -299,6 +299,8 @@ class AttributeCollection(MutableMapping[int, Attribute]):
                             ],
                         ),
                     ],
+                    # the local AS may need four bytes: pack_attribute() converts for 2-byte peers (AS_TRANS + AS4_PATH)
+                    asn4=True,
                 )
             ),
             Attribute.CODE.LOCAL_PREF: lambda left, right: LocalPreference.from_int(100) if left == right else NOTHING,
